@@ -53,6 +53,13 @@ def cases(tier, seed):
         if u < 0.35:
             scn["pk"] = "steps"
             scn["pattern"] = [["iter", 1]] * int(rng.integers(2, 80 if tier == "quick" else 400)) + ([["solve"]] if rng.random() < 0.5 else [])
+            if rng.random() < 0.5:
+                # pure queries to the solver's own evolvent between the steps (right after the first iteration, and later)
+                pat = list(scn["pattern"])
+                for pos in sorted({1, int(rng.integers(1, len(pat) + 1)), int(rng.integers(1, len(pat) + 1))}, reverse=True):
+                    pat.insert(pos, ["evq", int(rng.integers(1 << 30))])
+                scn["pattern"] = pat
+                scn["evq"] = True
         elif u < 0.65:
             parts = [int(v) for v in rng.integers(1, 25, int(rng.integers(1, 8)))]
             scn["pk"] = "batches"
@@ -209,7 +216,9 @@ def run_case(scn):
     if t.swallowed or t.aborted:
         viol.append({"mech": "solve-internal-exception", "stdout": t.stdout[-300:]})
     T = prob.ng
-    obs = {"runs": 1, "trials": T, "items_checked": m.items_checked, "images_checked": m.images_checked,
+    if scn.get("evq"):
+        stepobs_evq = 1
+    obs = {"runs": 1, "runs_with_evolvent_queries_between_steps": int(bool(scn.get("evq"))), "trials": T, "items_checked": m.items_checked, "images_checked": m.images_checked,
            "insert_calls_checked": _insert_stats["calls"], "moments": sum(m.moments.values())}
     for k, v in m.moments.items():
         obs["moments_" + k] = v
@@ -224,7 +233,7 @@ def finalize(obs, tier, stats):
     need = 100000 if tier == "quick" else 2000000
     if obs.get("items_checked", 0) < need:
         return "only %d stored items audited (< %d)" % (obs.get("items_checked", 0), need), {}
-    miss = [k for k in ("moments_callback:iter", "moments_after:iter", "moments_after:solve", "insert_calls_checked", "images_checked", "collapse_runs", "faults_at_first_evaluation", "trials_after_a_fault") if not obs.get(k)]
+    miss = [k for k in ("moments_callback:iter", "moments_after:iter", "moments_after:solve", "insert_calls_checked", "images_checked", "collapse_runs", "faults_at_first_evaluation", "trials_after_a_fault", "runs_with_evolvent_queries_between_steps") if not obs.get(k)]
     if miss:
         return "never observed: %s" % miss, {}
     return None, {}
